@@ -4,7 +4,7 @@ The last job launched for a document is the last text/version the client sent fo
 -/
 namespace A2Verif.Srv
 
-variable (an : Text → Option Diags)
+variable (an : Nat → Text → Option Diags)
 
 /-- document of the last job launched for `u` -/
 def lastLaunched (l : List (Nat × Doc)) (u : Uri) : Option Doc :=
@@ -22,7 +22,7 @@ def lastSent (evs : List Event) : Uri → Option Doc := evs.foldl sent (fun _ =>
 on (the default), no `didSave` re-analysis (Merlin only; it launches with version `None`) -/
 def plain : Event → Prop
   | .save _ _ => False
-  | .config live _ => live = true
+  | .config _ live _ => live = true
   | _ => True
 
 instance : DecidablePred plain := fun e => by
@@ -190,12 +190,12 @@ theorem SentInv.step {L : Uri → Option Doc} {s s' : State} {e : Event} (hp : p
     refine ⟨hi.live, hi.last, ?_, hi.uri⟩
     intro x d hd
     exact hi.chk x d (lookup_erase_some hd).1
-  | configLock =>
+  | configLock c =>
     apply frame <;>
     · simp only [Srv.step] at hs
       repeat' (split at hs)
       all_goals first | (simp at hs; done) | (cases hs; rfl)
-  | config live order =>
+  | config c live order =>
     simp only [plain] at hp
     subst hp
     simp only [Srv.step] at hs
